@@ -102,6 +102,14 @@ CLAIMED = {
                   "reader, checks the same conditions on the real header and that written and re-parsed geometry equal what was supplied.",
              note="Trusts TLC, gen/mdl.py; meshes above 2000 vertices are compared by the shim's bit-exact echo test; version 5 only (README declares Dawntrail writes broken).",
              ref="5 C07"),
+ "C17": dict(cat="fault_enumeration", tech="fault space enumerated by TLC from Faults.tla (field maps x boundary values, truncation points) + isolated-worker execution + TLC validation of the outcome contract; patch machine OkIffEof model-checked",
+             text="The specification contributes the fault space (every truncation point and every single-field corruption with boundary values over the field "
+                  "maps of valid bases of each format, checked for its own laws by TLC) and the contract (outcome is fail or value, memory bound, a truncated or "
+                  "unwritable patch never reports success; OkIffEof is model-checked on the patch state machine). Every (base, fault) pair, named text/path faults "
+                  "and patch fault sequences run against the real entry points in an isolated worker with a counting allocator and a watchdog; TLC judges each "
+                  "recorded outcome. Whether Rust code panics is observed, not proved.",
+             note="Trusts TLC, the supervisor/worker (panic hook, RLIMIT_AS 4 GiB, RLIMIT_FSIZE 512 MiB, 8 s watchdog). Known findings listed per entry point and field.",
+             ref="5 C17"),
 }
 HOOK_COMMITS = ["5eeb305"]
 REASON_PENDING = "check not built yet in this session (see DESIGN.md section 5); will be claimed when its trace specification exists"
